@@ -137,7 +137,7 @@ def run(ctx):
 
 MANIFEST = {
     "category": "other",
-    "technique": "sibling agreement of Encoder::encode / Decoder::decode from exhaustive path tables (forking abstract interpretation over the MIR)",
+    "technique": "sibling agreement of Encoder::encode / Decoder::decode from exhaustive path tables (forking abstract interpretation over the MIR); limit applied to the frame length itself on both sides",
     "text": "Static over all paths of both functions: prefix format, payload slice and advance amount, strict size limit on both sides, no consumption on incomplete input or errors (which is what makes arbitrary chunking safe). postcard's byte encoding is not decided.",
     "note": "Trusted: rustc MIR, driver, abstract interpreter; bytes/tokio-util Buf, BufMut semantics (put_u32 is big-endian).",
 }
